@@ -28,6 +28,7 @@ package ed25519
 //@   ensures (hashFunc == 7 && len(message) != 64) ==> result1 != nil
 //@   ensures hashFunc == 0 ==> (result0 == f && result1 == nil)
 //@   ensures (hashFunc != 0 && hashFunc != 7) ==> result1 != nil
+//@   ensures result1 != nil ==> result0 == f
 
 // ---------------- scalar admissibility, small order ----------------
 
@@ -196,6 +197,9 @@ package ed25519
 // G1: an entry that single verification accepts is never marked invalid (holds at every loop head)
 //@ spec g1(publicKeys, messages, sigs, opts, valid) = forall(k, 0, len(publicKeys), ventry(publicKeys[k], messages[k], sigs[k], opts) ==> valid[k])
 
+// the dom2 flag carried through the batch loops: the one unwrap chose, or fPh once a pre-hashed entry was seen
+//@ spec fbase(opts) = ite(len(opts.Context) > 0, fCtx, fPure)
+//@ spec fok(f, opts) = f == fbase(opts) || (opts.Hash == 7 && f == fPh)
 // G2: the summary flag is the conjunction of the entries: ret == 0 exactly when no entry is marked invalid
 //@ spec g2(valid, ret, n) = 0 <= ret && ret <= 3 && ((ret == 0) == forall(k, 0, n, valid[k]))
 // the acceptance conditions of one entry other than the group equation and S < L
@@ -210,7 +214,7 @@ package ed25519
 //@   loop#1 modifies rangeindex, valid[0:len(valid)]
 //@   loop#1 invariant -1 <= rangeindex && rangeindex < len(valid) && forall(k, 0, rangeindex + 1, valid[k])
 //@   loop#2 modifies f, num, offset, batch, p, hash, ret, valid[0:len(valid)]
-//@   loop#2 invariant g1(publicKeys, messages, sigs, *opts, valid) && g2(valid, ret, len(publicKeys)) && 0 <= offset && 0 <= num && offset + num == len(publicKeys)
+//@   loop#2 invariant fok(f, *opts) && g1(publicKeys, messages, sigs, *opts, valid) && g2(valid, ret, len(publicKeys)) && 0 <= offset && 0 <= num && offset + num == len(publicKeys)
 //@   loop#3 modifies i, batch.scalars
 //@   loop#3 invariant g1(publicKeys, messages, sigs, *opts, valid) && g2(valid, ret, len(publicKeys)) && 0 <= i && i <= batchSize
 //@   loop#4 modifies i, batch.scalars, ret, batchOk, valid[0:len(valid)]
@@ -218,9 +222,11 @@ package ed25519
 //@   loop#5 modifies i, batch.scalars
 //@   loop#5 invariant g1(publicKeys, messages, sigs, *opts, valid) && g2(valid, ret, len(publicKeys)) && 1 <= i && i <= batchSize
 //@   loop#6 modifies f, i, batch.scalars, hash, ret, batchOk, valid[0:len(valid)]
-//@   loop#6 invariant g1(publicKeys, messages, sigs, *opts, valid) && g2(valid, ret, len(publicKeys)) && 0 <= i && i <= batchSize && forall(k, 0, i, len(publicKeys[k+offset]) == 32 && optsok(*opts, messages[k+offset]) && (opts.ZIP215Verify || !small(bytesOf(publicKeys[k+offset][0:32]))))
+//@   loop#6 invariant fok(f, *opts) && g1(publicKeys, messages, sigs, *opts, valid) && g2(valid, ret, len(publicKeys)) && 0 <= i && i <= batchSize && forall(k, 0, i, len(publicKeys[k+offset]) == 32 && optsok(*opts, messages[k+offset]) && (opts.ZIP215Verify || !small(bytesOf(publicKeys[k+offset][0:32]))))
 //@   loop#7 modifies i, batch.points, ret, batchOk, valid[0:len(valid)]
 //@   loop#7 invariant g1(publicKeys, messages, sigs, *opts, valid) && g2(valid, ret, len(publicKeys)) && 0 <= i && i <= batchSize && forall(k, 0, i, decodable(bytesOf(publicKeys[k+offset][0:32])) && decodable(bytesOf(sigs[k+offset][0:32])) && (opts.ZIP215Verify || !small(bytesOf(sigs[k+offset][0:32]))))
+//@   lemma before call Expand#3 : len(opts.Context) == 0 ==> le(hash[0:64]) % L == hchal(variant(*opts), bnil(), 0, bytesOf(sigs[i+offset][0:32]), bytesOf(publicKeys[i+offset][0:32]), bytesOf(messages[i+offset]))
+//@   lemma before call Expand#3 : len(opts.Context) > 0 ==> le(hash[0:64]) % L == hchal(variant(*opts), bytesOf(opts.Context), len(opts.Context), bytesOf(sigs[i+offset][0:32]), bytesOf(publicKeys[i+offset][0:32]), bytesOf(messages[i+offset]))
 //@   lemma before call multiScalarmultVartime#1 : forallq(k, 0, batchSize, vpre(publicKeys[k+offset], messages[k+offset], sigs[k+offset], *opts))
 //@   loop#8 modifies i, ret, valid[0:len(valid)]
 //@   loop#8 invariant g1(publicKeys, messages, sigs, *opts, valid) && g2(valid, ret, len(publicKeys)) && 0 <= i && i <= batchSize
